@@ -69,6 +69,9 @@ type PFCPConn struct {
 	// setup and Shutdown touch from different goroutines.
 	hbMu sync.Mutex
 
+	// handleMu serialises message handling with the teardown of the connection.
+	handleMu sync.Mutex
+
 	// shutdownOnce makes Shutdown idempotent: release, read timeout, heartbeat
 	// failure and node stop may all ask for it.
 	shutdownOnce sync.Once
@@ -254,11 +257,15 @@ func (pConn *PFCPConn) shutdownNow() {
 	}
 	pConn.hbMu.Unlock()
 
-	// Cleanup all sessions in this conn
+	// Cleanup all sessions in this conn, once the request in flight (if any) is done
+	pConn.handleMu.Lock()
+
 	for _, sess := range pConn.store.GetAllSessions() {
 		pConn.upf.SendMsgToUPF(upfMsgTypeDel, sess.PacketForwardingRules, PacketForwardingRules{})
 		pConn.RemoveSession(sess)
 	}
+
+	pConn.handleMu.Unlock()
 
 	rAddr := pConn.RemoteAddr().String()
 	pConn.done <- rAddr
